@@ -327,7 +327,10 @@ func init() {
 					hist = append(hist[:pos], append([]Call{{Op: "add", A: r.intn(n)}}, hist[pos:]...)...)
 				}
 			}
-			spec := &Spec{N: n, Hist: hist, Plan: plan, Serial: serial, MaxPar: maxpar, PSeed: r.u64(), Buffer: r.chance(1, 3)}
+			spec := &Spec{N: n, Hist: hist, Plan: plan, Serial: serial, MaxPar: maxpar, PSeed: r.u64(), Buffer: r.chance(1, 3), CtxErrs: r.chance(1, 3), Literal: r.chance(1, 4)}
+			if r.chance(1, 8) {
+				spec.PreTasks, spec.PreFail = 2, true // an earlier failed Run of the same graph
+			}
 			switch r.intn(4) {
 			case 0, 1:
 				spec.Policy = "rand"
@@ -368,7 +371,7 @@ func init() {
 		Assumptions: append(common, "tasks already launched and waiting for a SetMaxParallel slot when cancellation is seen count as in flight (DESIGN N1); counted in evidence"),
 		Cases: func(tier string) int {
 			if tier == "thorough" {
-				return 60000
+				return 900000
 			}
 			return 3000
 		},
@@ -402,9 +405,19 @@ func init() {
 			case 5:
 				spec.Cancel = Cancel{Kind: "inside-task", K: r.intn(n)}
 			}
+			spec.CtxErrs = r.chance(1, 3)
+			if spec.Cancel.Kind != "" && r.chance(1, 3) {
+				spec.Deadline = true
+			}
+			if spec.Cancel.Kind == "" && r.chance(1, 10) {
+				spec.PreTasks, spec.PreFail = 2, true
+			}
 			ck := spec.Cancel.Kind
 			if ck == "" {
 				ck = "none"
+			}
+			if spec.Deadline {
+				ck += "(deadline)"
 			}
 			res := newRes(map[string]interface{}{"spec": spec})
 			res.Cells = []string{fmt.Sprintf("cancel=%s|%s|n=%d", ck, mname, n)}
@@ -446,7 +459,7 @@ func init() {
 		Assumptions: common,
 		Cases: func(tier string) int {
 			if tier == "thorough" {
-				return 40000
+				return 400000
 			}
 			return 1600
 		},
@@ -498,6 +511,7 @@ func init() {
 				if r.chance(1, 2) {
 					spec.SerialMask = 1 + r.intn((1<<uint(spec.NGraphs))-1) // at least one of the graphs is serial
 				}
+				spec.Literal = r.chance(1, 3)
 				cell = fmt.Sprintf("shared|graphs=%d|some-serial=%v", spec.NGraphs, spec.SerialMask != 0)
 			default: // buffered output
 				n := 2 + r.intn(8)
@@ -509,7 +523,11 @@ func init() {
 				if r.chance(1, 3) {
 					spec.MaxPar = 2 + r.intn(3)
 				}
-				cell = "buffer|" + spec.Policy
+				if r.chance(1, 3) {
+					spec.ChunkBytes = 30000 + r.intn(40000) // more than 64 KiB per attempt
+					spec.Chunks = 2 + r.intn(2)
+				}
+				cell = fmt.Sprintf("buffer|%s|large=%v", spec.Policy, spec.ChunkBytes > 0)
 			}
 			res := newRes(map[string]interface{}{"spec": spec})
 			res.Cells = []string{cell}
@@ -544,7 +562,7 @@ func init() {
 		Assumptions: common,
 		Cases: func(tier string) int {
 			if tier == "thorough" {
-				return histCases(4) + 60000
+				return histCases(4) + 600000
 			}
 			return histCases(3) + 1500
 		},
@@ -615,6 +633,13 @@ func init() {
 				if spec.Cancel.Kind == "inside-task" {
 					spec.Cancel.K = r.intn(n)
 				}
+			}
+			if len(hist) > 1 && r.chance(1, 3) {
+				spec.SortAt = 1 + r.intn(len(hist)-1) // DepthFirstSort called while the graph is still being built
+			}
+			if r.chance(1, 6) {
+				spec.Buffer, spec.WriterFails = true, true // Run must return although the output writer fails
+				spec.Policy = "all"
 			}
 			res := newRes(map[string]interface{}{"spec": spec})
 			cl := "acyclic"
